@@ -340,4 +340,151 @@ theorem remove_present {s : HH} (hwf : WF lt s) {i : Nat} (hi : InR s.count i) :
       rw [tg_set]
       exact Live.removeAt hi hic x
 
+/-- `reprioritize` of the key of live entry `i` changes exactly the sort keys of that entry -/
+theorem reprioritize_present {s : HH} (hwf : WF lt s) {i : Nat} (hi : InR s.count i) (d' i' : Int) :
+    ∃ s', reprioritize lt s (s.tag i).key d' i' = .ok s' ∧ WF lt s' ∧ s'.count = s.count ∧
+      s'.exp = s.exp ∧ s'.expInit = s.expInit ∧ s'.counter = s.counter ∧
+      ∀ x, Live s'.tag s'.count x ↔ Live (upd s.tag i { s.tag i with d := d', i := i' }) s.count x := by
+  obtain ⟨he1, he31, hei1, hei2, hsz, hhs, hc, w, ho⟩ := (WF_iff lt s).1 hwf
+  have hi1 := hi.1; have hi2 := hi.2
+  have hi0 : i ≠ 0 := by omega
+  unfold reprioritize
+  rw [if_neg (w.keyOk i hi).1, findIndex_live s hhs (by omega) w hi, ok_bind, if_neg hi0]
+  rw [HH.tag_eq] at ho ⊢
+  dsimp only
+  rw [rdHeap_ok (by omega), ok_bind, wrHeap_ok (by omega), ok_bind, wrHeap_ok (by simp; omega), ok_bind]
+  have hT1 : ∀ j, 1 ≤ j →
+      upd (upd (tg s.heap) 0 (tg s.heap i)) i { tg s.heap i with d := d', i := i' } j =
+      upd (tg s.heap) i { tg s.heap i with d := d', i := i' } j := by
+    intro j hj
+    by_cases h : j = i
+    · simp [h]
+    · have : j ≠ 0 := by omega
+      simp [h, this]
+  apply sift_either
+  · refine ⟨he1, he31, hei1, hei2, by simp [hsz], hhs, hc, ?_⟩
+    show WFS (tg _) (sl _) (InR s.count) s.exp
+    rw [tg_set, tg_set]
+    apply w.congr (fun _ => Iff.rfl) _ (fun _ _ => rfl)
+    intro j hj
+    rw [hT1 j hj.1, HH.tag_eq]
+    by_cases h : j = i
+    · subst h; simp
+    · simp [h]
+  · exact hi
+  · intro hdown
+    show DownOrd lt (tg _) s.count i
+    rw [tg_set, tg_set]
+    apply DownOrd.congr _ (fun j hj _ => hT1 j hj)
+    apply Ord.replace_down ho (Nat.le_refl _) hi
+    intro h2
+    exact lt_D hdown (ho i h2 hi2)
+  · intro hup
+    show UpOrd lt (tg _) s.count i
+    rw [tg_set, tg_set]
+    apply UpOrd.congr _ (fun j hj _ => hT1 j hj)
+    apply Ord.replace_up ho (Nat.le_refl _) hi
+    intro x h2 hc' hx
+    have := ho x h2 hc'
+    rw [hx] at this
+    exact lt_B this hup
+  · intro s2 q
+    refine ⟨q.1, q.2.1, q.2.2.1, q.2.2.2.1, q.2.2.2.2.1, ?_⟩
+    intro x
+    rw [q.2.2.2.2.2 x]
+    show Live (tg _) s.count x ↔ _
+    rw [tg_set, tg_set]
+    exact Live.congr (fun j hj _ => hT1 j hj) x
+
+/-- `enqueue` after the capacity check and the optional growth -/
+def enqueueCore (lt : Order) (s : HH) (it : Item) (key : Nat) (d i : Int) : Except Fault (HH × Nat) := do
+  let hc := s.count + 1
+  let counter := s.counter + 1
+  let key := if key = 0 then counter else key
+  let heap ← wrHeap s.heap hc { key := key, hidx := 0, item := it, d := d, i := i }
+  let idx ← findSlot s.hash s.exp key
+  let hash ← wrHash s.hash idx { key := key, idx := hc }
+  let heap ← setHidx heap hc idx
+  let s' ← heapUp lt { s with heap := heap, hash := hash, count := hc, counter := counter } hc
+  .ok (s', key)
+
+omit sw in
+theorem enqueue_eq (s : HH) (it : Item) (key : Nat) (d i : Int) :
+    enqueue lt s it key d i =
+      if 2 ^ s.exp < s.count then .error (.assert 408)
+      else (if s.count = 2 ^ s.exp then grow s else pure s) >>= fun s => enqueueCore lt s it key d i := rfl
+
+theorem enqueue_tail (s1 : HH) (k key : Nat) (Q : HH → Prop) (p : Pre s1) (hk : InR s1.count k)
+    (ho : UpOrd lt s1.tag s1.count k) (hQ : ∀ s2, Post lt s1 s2 → Q s2) :
+    ∃ s2, (do let s' ← heapUp lt s1 k
+              Except.ok (s', key)) = .ok (s2, key) ∧ Q s2 := by
+  obtain ⟨s2, hrun, q⟩ := heapUp_tail (lt := lt) p hk ho
+  rw [hrun]
+  exact ⟨s2, rfl, hQ s2 q⟩
+
+/-- `enqueue` into a well-formed heap with room for one more entry -/
+theorem enqueueCore_spec {s : HH} (hwf : WF lt s) (hroom : s.count < 2 ^ s.exp) (it : Item) (key : Nat)
+    (d i : Int) (k' : Nat) (hk' : k' = if key = 0 then s.counter + 1 else key)
+    (hk0 : k' ≠ 0) (hk64 : k' < 2 ^ 64) (hfresh : ∀ j, InR s.count j → (s.tag j).key ≠ k') :
+    ∃ p s', enqueueCore lt s it key d i = .ok (s', k') ∧ WF lt s' ∧ s'.count = s.count + 1 ∧
+      s'.exp = s.exp ∧ s'.expInit = s.expInit ∧ s'.counter = s.counter + 1 ∧
+      ∀ x, Live s'.tag s'.count x ↔
+        (Live s.tag s.count x ∨ x = { key := k', hidx := p, item := it, d := d, i := i }) := by
+  obtain ⟨he1, he31, hei1, hei2, hsz, hhs, hc, w, ho⟩ := (WF_iff lt s).1 hwf
+  have hpow : 2 ^ (s.exp + 1) = 2 * 2 ^ s.exp := by rw [Nat.pow_succ]; omega
+  obtain ⟨p, hp, hfind, hfree, hchain⟩ := findSlot_spec s.hash s.exp k' hhs (by omega)
+    (w.exists_free s.count (fun i hi => hi.2) (by omega))
+  unfold enqueueCore
+  dsimp only
+  rw [← hk', wrHeap_ok (by omega), ok_bind, hfind, ok_bind, wrHash_ok (by omega), ok_bind,
+    setHidx_ok (by simp; omega), ok_bind]
+  have hnew : InR (s.count + 1) (s.count + 1) := ⟨by omega, Nat.le_refl _⟩
+  have w1 := w.insert (by omega) (a := s.count + 1) (p := p)
+    { key := k', hidx := p, item := it, d := d, i := i } (fun h => by have := h.2; omega) (by omega)
+    ⟨hk0, hk64⟩ hfresh hp rfl hfree hchain
+  have hT1 : ∀ j, upd (upd (tg s.heap) (s.count + 1) { key := k', hidx := 0, item := it, d := d, i := i })
+        (s.count + 1)
+        { upd (tg s.heap) (s.count + 1) { key := k', hidx := 0, item := it, d := d, i := i } (s.count + 1)
+            with hidx := p } j =
+      upd (tg s.heap) (s.count + 1) { key := k', hidx := p, item := it, d := d, i := i } j := by
+    intro j
+    by_cases h : j = s.count + 1
+    · simp [h]
+    · simp [h]
+  refine ⟨p, ?_⟩
+  apply enqueue_tail
+  · refine ⟨he1, he31, hei1, hei2, by simp [hsz], by simp [hhs], (by show s.count + 1 ≤ 2 ^ s.exp; omega), ?_⟩
+    show WFS (tg _) (sl _) (InR (s.count + 1)) s.exp
+    rw [tg_set, tg_set, sl_set]
+    apply w1.congr
+    · intro j; unfold InR; omega
+    · intro j _; rw [hT1 j]; exact ⟨rfl, rfl⟩
+    · intro _ _; rfl
+  · exact hnew
+  · show UpOrd lt (tg _) (s.count + 1) (s.count + 1)
+    rw [tg_set, tg_set]
+    constructor
+    · intro x h2 hc' hx
+      rw [hT1 x, hT1 (x / 2)]
+      have h1 : x ≠ s.count + 1 := hx
+      have h3 : x / 2 ≠ s.count + 1 := by omega
+      simp [h1, h3]
+      exact ho x h2 (by omega)
+    · intro x h2 hc' hx; omega
+  · intro s2 q
+    refine ⟨q.1, q.2.1, q.2.2.1, q.2.2.2.1, q.2.2.2.2.1, ?_⟩
+    intro x
+    rw [q.2.2.2.2.2 x]
+    show Live (tg _) (s.count + 1) x ↔ _
+    rw [tg_set, tg_set, Live.congr (fun j _ _ => hT1 j) x]
+    constructor
+    · rintro ⟨j, h1, h2, rfl⟩
+      by_cases h : j = s.count + 1
+      · right; simp [h]
+      · left; exact ⟨j, h1, by omega, by simp [h]; rfl⟩
+    · rintro (⟨j, h1, h2, rfl⟩ | rfl)
+      · have h : j ≠ s.count + 1 := by omega
+        exact ⟨j, h1, by omega, by simp [h]; rfl⟩
+      · exact ⟨s.count + 1, by omega, Nat.le_refl _, by simp⟩
+
 end CimbaModel.HashHeap
